@@ -15,7 +15,7 @@ fn differ(out: &mut Out, op: &str, container: &str, reference: &[u8], got: &Outc
     }
 }
 
-fn containers(out: &mut Out, rng: &mut Rng, thorough: bool) {
+pub fn containers(out: &mut Out, rng: &mut Rng, thorough: bool) {
     use dryoc::classic::crypto_box::crypto_box_beforenm;
     use dryoc::types::*;
     let rounds = if thorough { 12 } else { 4 };
@@ -199,6 +199,16 @@ fn containers(out: &mut Out, rng: &mut Rng, thorough: bool) {
                 let sign_ok = |pk: &[u8], sk: &[u8]| -> bool { let seed: [u8; 32] = sk[..32].try_into().unwrap(); let (lpk, lsk) = sodium::sign_seed_keypair(&seed); lpk[..] == pk[..] && lsk[..] == sk[..] };
                 match guard(|| SK::gen_locked_keypair()) { Outcome::Ok(kp) => { if !sign_ok(kp.public_key.as_slice(), kp.secret_key.as_slice()) { out.hit("containers.differ.sign.gen_locked_keypair", "not the key pair of its seed".into(), json!({"op":"containers.sign-keypair","sk":hx(kp.secret_key.as_slice())})); } } o => out.hit("containers.fail.sign.gen_locked_keypair", o.class().to_string(), json!({})) }
                 match guard(|| SRO::gen_readonly_locked_keypair()) { Outcome::Ok(kp) => { if !sign_ok(kp.public_key.as_slice(), kp.secret_key.as_slice()) { out.hit("containers.differ.sign.gen_readonly_locked_keypair", "not the key pair of its seed".into(), json!({"op":"containers.sign-keypair","sk":hx(kp.secret_key.as_slice())})); } } o => out.hit("containers.fail.sign.gen_readonly_locked_keypair", o.class().to_string(), json!({})) }
+            }
+            // a clone of any container holds the bytes of the original
+            for cl in [1usize, 32, 4097] {
+                let v: Vec<u8> = (0..cl).map(|k| (k as u8).wrapping_mul(7).wrapping_add(3)).collect();
+                out.search_evaluations += 5;
+                let chk = |out: &mut Out, name: &str, got: Vec<u8>| { if got != v { out.hit("containers.differ.clone", format!("a clone of {} of {} bytes holds {}..", name, cl, hx(&got[..got.len().min(16)])), json!({"op":"containers.clone","container":name,"len":cl})); } };
+                chk(out, "HeapBytes", HeapBytes::from(&v[..]).clone().as_slice().to_vec());
+                if let Ok(l) = HeapBytes::from_slice_into_locked(&v) { chk(out, "Locked<HeapBytes>", l.clone().as_slice().to_vec());
+                    if let Ok(u) = l.munlock() { chk(out, "Unlocked<HeapBytes>", u.clone().as_slice().to_vec()); if let Ok(ur) = u.mprotect_readonly() { chk(out, "UnlockedRO<HeapBytes>", ur.clone().as_slice().to_vec()); } } }
+                if let Ok(l) = HeapBytes::from_slice_into_readonly_locked(&v) { chk(out, "LockedRO<HeapBytes>", l.clone().as_slice().to_vec()); }
             }
             for (name, v) in fresh { if v.is_empty() || v.iter().any(|x| *x != 0) { out.hit("containers.differ.fresh-contents", format!("a new {} holds {} where the stack array holds zeros", name, hx(&v)), json!({"op":"containers.fresh","container":name})); } }
         }
